@@ -84,6 +84,7 @@ def gene_opts(rng, small=False):
         pseudo=rng.random() < 0.85,
         tandem=rng.random() < 0.3,
         cn_subset=rng.random() < 0.2,
+        edge_variant=rng.choice([None, None, None, "last", "first", "both"]),
     )
     if not o["pseudo"]:
         o["lfusion"] = o["rfusion"] = False
